@@ -376,6 +376,34 @@ def c16(ctx):
                         out.fail(key, 'eager: %s lets %s mutate a value it received (%s) before any terminal is called: a source '
                                       'can be advanced this way without a visible Iterator call' % (key_of(b), c_, t_str(x[1])[:80]), b.where())
     out.count('mutations_seen', n_mut)
+    # the closure a transformation receives is stored / composed, never handed to anything that runs it: its only consumers are
+    # constructors, other transformations (which are judged themselves) and closure literals that are consumed in the same way
+    allowed = set(S.constructors) | set(S.transformations) | set(S.setters) | set(S.par_methods)
+    n_own = 0
+    for s_ in S.transformations:
+        b = F.bodies[s_]
+        fb = b.fn_bounds()
+        own = [('param', b.local_name(l)) for l in b.arg_locals() if local_type_param(b, l) in fb and b.local_name(l) != 'self']
+        if not own:
+            continue
+        r = ctx.run(s_)
+        for bb, c in r.call_sites():
+            cal = callee_of(c['t'])
+            d_ = decl(c['t'])
+            if cal in allowed or (d_.startswith(PAR_TRAIT + '::') and method(c['t']) in ('map', 'filter', 'flat_map', 'filter_map', 'num_threads', 'chunk_size')):
+                continue
+            if d_ in ('std::clone::Clone::clone', 'std::convert::Into::into', 'std::convert::From::from'):
+                continue
+            for a in c['args']:
+                hit = [p_ for p_ in own if any(x == p_ for x in subterms(a))]
+                if hit:
+                    n_own += 1
+                    key = 'C16/%s/runs-own-closure/%s' % (key_of(b), hit[0][1])
+                    out.inst(key, False, res(c['t']))
+                    out.fail(key, 'eager: %s hands its own closure `%s` to %s instead of storing it in the computation it returns: that closure runs while the '
+                                  'computation is being built, under the parameters set so far' % (key_of(b), hit[0][1], res(c['t'])), b.where(c['line']))
+                    break
+    out.count('own_closures_run_eagerly', n_own)
     # constructors only store
     for c in S.constructors:
         b = F.bodies[c]
